@@ -66,7 +66,7 @@ theorem clean_inA {p : Par} {s : State} {t0 : Nat} {frs : List Frm} {gab grest :
       p.M ≤ r.toNat ∧ r.toNat ≤ 60000 := by
     rcases hk1 with rfl | ⟨rtt, rfl⟩
     · exact ⟨_, _, _, rfl, by rw [hst_rto]; exact h.arto.1, by rw [hst_rto]; exact h.arto.2⟩
-    · obtain ⟨a, b, r, he⟩ := updateAck_shape (inFrs true frs { k := s.A }).k rtt
+    · obtain ⟨a, b, r, he⟩ := updateAck_shape' (inFrs true frs { k := s.A }).k rtt
       have hb := updateAck_rto (inFrs true frs { k := s.A }).k rtt (by
         rw [hst_min, h.amin]; have := h.arto; omega)
       rw [hst_min, h.amin] at hb
@@ -74,7 +74,7 @@ theorem clean_inA {p : Par} {s : State} {t0 : Nat} {frs : List Frm} {gab grest :
       rw [hr] at hb
       exact ⟨a, b, r, he, hb.1, hb.2⟩
   obtain ⟨a, b, r, he, hr1, hr2⟩ := hk1s
-  obtain ⟨cw, inc, hcw⟩ := cwndOnAck_shape k1 s.A.snd_una
+  obtain ⟨cw, inc, hcw⟩ := cwndOnAck_shape' k1 s.A.snd_una
   have hK : cwndOnAck k1 s.A.snd_una =
       { s.A with rmt_wnd := rw, snd_buf := s.A.snd_buf.drop c, snd_una := su, probe := pr,
                  rx_srtt := a, rx_rttvar := b, rx_rto := r, cwnd := cw, incr := inc } := by
